@@ -97,10 +97,22 @@ def main(argv):
     results = {}
     budget = MemBudget(int(os.environ.get('VERIF_MEM_GB', '44')))
 
+    # the quick tier is meant to run on every change: it gives its answer within QUICK_BUDGET seconds
+    # (a job that cannot finish in what is left is reported as undecided, never as a violation)
+    deadline = (t0 + int(os.environ.get('VERIF_QUICK_BUDGET', '840'))) if a.tier == 'quick' else None
+
     def guarded(job, *args):
+        import copy
         need = min(budget.total, job.mem_est * max(1, len(job.solvers)))
         budget.acquire(need)
         try:
+            if deadline is not None:
+                left = deadline - time.time()
+                if left < 20:
+                    r = driver.JobResult(job); r.reason = 'not started: the quick tier time budget was used up by other jobs'
+                    return r
+                if job.timeout > left:
+                    job = copy.copy(job); job.timeout = int(left)
             return run_job(job, *args)
         finally:
             budget.release(need)
